@@ -1,3 +1,197 @@
+// C14, write admission ("wa" mode): the REAL coordinator admission step (injestionCtx.checkDBRP + PointsWriter.
+// routeAndMapOriginRows through coordinator.VerifC14Admit) over a catalogue held by the real meta.Data, under the
+// coordinator's own coarse clock (fasttime, seconds). The clock cannot be injected: it is read before and after each
+// batch and only batches during which it did not move are compared with the model (the others are re-run).
 package main
 
-func runWA(n int) {}
+import (
+	"fmt"
+	"time"
+
+	"github.com/VictoriaMetrics/VictoriaMetrics/lib/fasttime"
+	"github.com/openGemini/openGemini/coordinator"
+	"github.com/openGemini/openGemini/lib/config"
+	"github.com/openGemini/openGemini/lib/util/lifted/influx/influxql"
+	"github.com/openGemini/openGemini/lib/util/lifted/influx/meta"
+	proto2 "github.com/openGemini/openGemini/lib/util/lifted/influx/meta/proto"
+	"github.com/openGemini/openGemini/lib/util/lifted/vm/protoparser/influx"
+	"verifharness/internal/gen"
+)
+
+type WARow struct {
+	T      int64 `json:"t"`
+	Off    int64 `json:"off"` // t - (nowsec*1e9 - d_lookup)   (information)
+	Mapped bool  `json:"mapped"`
+	SgEnd  int64 `json:"sg_end"` // end of the group the row was mapped to
+}
+
+type WACase struct {
+	Mode    string   `json:"mode"`
+	D       int64    `json:"d"`       // policy duration when the batch looked the policy up
+	DAfter  int64    `json:"d_after"` // policy duration after the alteration that hit during the batch (= d if none)
+	AlterAt int      `json:"alter_at"` // the alteration happened at the k-th meta call of the batch, -1 = none
+	NowSec  int64    `json:"nowsec"`  // the coordinator clock during the batch (stable)
+	MinTime int64    `json:"min_time"`
+	Rows    []WARow  `json:"rows"`
+	Oracle  []string `json:"oracle"`
+}
+
+type wameta struct {
+	data    *meta.Data
+	calls   int
+	alterAt int
+	alterTo time.Duration
+}
+
+func (m *wameta) tick() {
+	if m.calls == m.alterAt {
+		d := m.alterTo
+		_ = m.data.UpdateRetentionPolicy(db, "rp1", &meta.RetentionPolicyUpdate{Duration: &d}, false)
+	}
+	m.calls++
+}
+func (m *wameta) Database(name string) (*meta.DatabaseInfo, error) { return m.data.Databases[name], nil }
+func (m *wameta) RetentionPolicy(database, policy string) (*meta.RetentionPolicyInfo, error) {
+	return m.data.RetentionPolicy(database, policy)
+}
+func (m *wameta) CreateShardGroup(database, policy string, ts time.Time, version uint32, et config.EngineType) (*meta.ShardGroupInfo, error) {
+	m.tick()
+	sg, tier, err := m.data.GetTierOfShardGroup(database, policy, ts, 0, et)
+	if err != nil {
+		return nil, err
+	}
+	if sg == nil {
+		if err := m.data.CreateShardGroup(database, policy, ts, tier, et, version); err != nil {
+			return nil, err
+		}
+		rpi, _ := m.data.RetentionPolicy(database, policy)
+		sg = rpi.ShardGroupByTimestampAndEngineType(ts, et)
+		if sg == nil {
+			return nil, nil
+		}
+	}
+	c := *sg
+	return &c, nil
+}
+func (m *wameta) DBPtView(database string) (meta.DBPtInfos, error) { return nil, nil }
+func (m *wameta) Measurement(database, rp, mst string) (*meta.MeasurementInfo, error) {
+	m.tick()
+	return m.data.Measurement(database, rp, mst)
+}
+func (m *wameta) UpdateSchema(database, rp, mst string, f []*proto2.FieldSchema) error { return nil }
+func (m *wameta) CreateMeasurement(database, rp, mst string, sk *meta.ShardKeyInfo, n int32, ir *influxql.IndexRelation, et config.EngineType,
+	c *meta.ColStoreInfo, s []*proto2.FieldSchema, o *meta.Options) (*meta.MeasurementInfo, error) {
+	return nil, fmt.Errorf("not used")
+}
+func (m *wameta) GetAliveShards(database string, sgi *meta.ShardGroupInfo, isRead bool) []int {
+	res := make([]int, 0, len(sgi.Shards))
+	for i := range sgi.Shards {
+		res = append(res, i)
+	}
+	return res
+}
+func (m *wameta) GetStreamInfos() map[string]*meta.StreamInfo                { return nil }
+func (m *wameta) GetDstStreamInfos(db, rp string, d *[]*meta.StreamInfo) bool { return false }
+func (m *wameta) DBRepGroups(database string) []meta.ReplicaGroup             { return nil }
+func (m *wameta) GetReplicaN(database string) (int, error)                    { return 1, nil }
+func (m *wameta) UpdateSchemaByCmd(cmd *proto2.UpdateSchemaCommand) error     { return nil }
+func (m *wameta) GetSgEndTime(d, r string, t time.Time, e config.EngineType) (int64, error) {
+	return 0, nil
+}
+
+func newWAData(d int64) *meta.Data {
+	data := &meta.Data{Databases: map[string]*meta.DatabaseInfo{}, ClusterPtNum: 1, PtNumPerNode: 1}
+	dbi := &meta.DatabaseInfo{Name: db, DefaultRetentionPolicy: "rp1", RetentionPolicies: map[string]*meta.RetentionPolicyInfo{}}
+	rpi := &meta.RetentionPolicyInfo{Name: "rp1", ReplicaN: 1, Duration: time.Duration(d), ShardGroupDuration: time.Hour, IndexGroupDuration: time.Hour,
+		Measurements: map[string]*meta.MeasurementInfo{}, MstVersions: map[string]meta.MeasurementVer{}}
+	nameVer := influx.GetNameWithVersion("m", 0)
+	mi := meta.NewMeasurementInfo(nameVer, "m", config.TSSTORE, 1)
+	mi.Schema.SetTyp("host", influx.Field_Type_Tag)
+	mi.Schema.SetTyp("usage", influx.Field_Type_Float)
+	mi.ShardKeys = []meta.ShardKeyInfo{{Type: "hash"}}
+	mi.ShardIdexes = map[uint64][]int{}
+	rpi.Measurements[nameVer] = mi
+	rpi.MstVersions["m"] = meta.MeasurementVer{NameWithVersion: nameVer, Version: 0}
+	dbi.RetentionPolicies["rp1"] = rpi
+	data.Databases[db] = dbi
+	return data
+}
+
+func genWA(r *gen.Rand) WACase {
+	hour := int64(time.Hour)
+	durs := []int64{0, hour, 2 * hour, 24 * hour, 7 * 24 * hour}
+	for attempt := 0; ; attempt++ {
+		cp := *r // same choices on a re-run after the clock moved
+		rr := &cp
+		c := WACase{Mode: "wa", D: gen.Pick(rr, durs), AlterAt: -1, Oracle: []string{}}
+		c.DAfter = c.D
+		mc := &wameta{data: newWAData(c.D), alterAt: -1}
+		if rr.Chance(1, 3) {
+			mc.alterAt = rr.Range(0, 3)
+			c.AlterAt = mc.alterAt
+			c.DAfter = gen.Pick(rr, durs)
+			mc.alterTo = time.Duration(c.DAfter)
+		}
+		n := rr.Range(2, 8)
+		t0 := int64(fasttime.UnixTimestamp())
+		var rows []influx.Row
+		for i := 0; i < n; i++ {
+			off := []int64{-hour, -1e9, -2, -1, 0, 1, 2, 1e9, hour / 2, 3 * hour}[rr.Intn(10)]
+			t := t0*1e9 - c.D + off
+			if c.D == 0 || rr.Chance(1, 10) {
+				t = []int64{-1, 0, 1, -hour, t0 * 1e9, t0*1e9 - 100*hour}[rr.Intn(6)]
+			}
+			if c.AlterAt >= 0 && rr.Chance(1, 2) { // aimed at the window of the duration in force after the alteration
+				t = t0*1e9 - c.DAfter + off
+			}
+			rows = append(rows, influx.Row{Name: "m", Timestamp: t,
+				Tags:   influx.PointTags{{Key: "host", Value: fmt.Sprint("h", i%3)}},
+				Fields: influx.Fields{{Key: "usage", NumValue: 1, Type: influx.Field_Type_Float}}})
+		}
+		minTime, shardOf, _, _, err := coordinator.VerifC14Admit(mc, db, "rp1", rows)
+		t1 := int64(fasttime.UnixTimestamp())
+		if t0 != t1 && attempt < 20 {
+			continue // the coarse clock moved during the batch: run the batch again
+		}
+		c.NowSec, c.MinTime = t0, minTime
+		if err != nil {
+			c.Oracle = append(c.Oracle, "batch failed: "+err.Error())
+		}
+		if mc.alterAt >= mc.calls { // the alteration never happened
+			c.AlterAt, c.DAfter = -1, c.D
+		}
+		rpi := mc.data.Databases[db].RetentionPolicies["rp1"]
+		for i := range rows {
+			w := WARow{T: rows[i].Timestamp, Off: rows[i].Timestamp - (t0*1e9 - c.D)}
+			if shardOf != nil && shardOf[i] != 0 {
+				w.Mapped = true
+				for _, sg := range rpi.ShardGroups {
+					for _, sh := range sg.Shards {
+						if sh.ID == shardOf[i] {
+							w.SgEnd = sg.EndTime.UnixNano()
+						}
+					}
+				}
+				// direct oracle: an admitted point lies in a group that is not expired at the admission clock reading
+				if c.D != 0 && w.SgEnd+c.D < t0*1e9 {
+					c.Oracle = append(c.Oracle, fmt.Sprintf("point t=%d admitted at %d s into a group ending %d that is already expired under d=%d", w.T, t0, w.SgEnd, c.D))
+				}
+				if !(w.T < w.SgEnd) {
+					c.Oracle = append(c.Oracle, fmt.Sprintf("point t=%d mapped to a group ending %d", w.T, w.SgEnd))
+				}
+			} else if c.D > 0 && w.T >= t0*1e9-c.D && w.T >= 0 {
+				// direct oracle: a point inside the retention window is not turned away as 'out of the retention policy'
+				c.Oracle = append(c.Oracle, fmt.Sprintf("point t=%d inside the window [%d,..) of d=%d at %d s was rejected", w.T, t0*1e9-c.D, c.D, t0))
+			}
+			c.Rows = append(c.Rows, w)
+		}
+		return c
+	}
+}
+
+func runWA(n int) {
+	r := gen.FromEnv(141414)
+	for i := 0; i < n; i++ {
+		gen.Emit(genWA(r.Fork()))
+	}
+}
